@@ -18,6 +18,7 @@ package ucon
 
 import (
 	"crypto/ecdsa"
+	"errors"
 	"fmt"
 	"math/big"
 
@@ -34,6 +35,11 @@ type VerifyPriorityFn func(pubkey *ecdsa.PublicKey, data *ConsensusCommon) error
 type VerifySortitionFn func(pubKey *ecdsa.PublicKey, data *SortitionData, lbType params.LookBackType) error
 
 type GetLookBackValidatorFn func(round *big.Int, addr common.Address, lbType params.LookBackType) (*state.Validator, bool)
+
+// errStaleSortition is returned by verifySortition for a message of an earlier
+// round or round index whose credential does not verify. Such a message is not
+// a reason to drop the peer, but its vote must not be counted either.
+var errStaleSortition = errors.New("unverifiable sortition of a stale message")
 
 type SortitionData struct {
 	Round      *big.Int
@@ -197,7 +203,7 @@ func (s *Server) verifySortition(pubKey *ecdsa.PublicKey, data *SortitionData, l
 	isValid, err := VrfVerifySortition(pk, lookBackSeed, data.RoundIndex, data.Step, data.Proof, data.Votes, threshold, stake, totalStake)
 	if err != nil || !isValid {
 		if data.Round.Cmp(s.currentRound) < 0 || data.RoundIndex < s.roundIndex {
-			return nil
+			return errStaleSortition
 		}
 		logging.Error("=======verify sortition failed.", "Round", data.Round, "RoundIndex", data.RoundIndex,
 			"step", data.Step, "validatorTh", threshold,
